@@ -14,6 +14,7 @@ use tiny::Focus;
 fn run(ctx: &Ctx) -> Report {
     let mut rep = Report::new();
     owning_iovec::verif::set_quarantine(true);
+    select_oracles(&ctx.prop);
     let mut unit = 0usize;
     match ctx.prop.as_str() {
         "C01" => {
@@ -67,7 +68,20 @@ fn run(ctx: &Ctx) -> Report {
     rep
 }
 
-fn replay(_ctx: &Ctx, text: &str) -> Result<String, String> {
+fn select_oracles(prop: &str) {
+    match prop {
+        "C01" => set_oracles(&[Oracle::RoundTrip]),
+        "C02" => set_oracles(&[Oracle::OutputShape]),
+        "C07" => set_oracles(&[Oracle::Canonical]),
+        "C09" => set_oracles(&[Oracle::PrefixLag]),
+        "C05" => set_oracles(&[Oracle::Liveness]),
+        "C10" => set_oracles(&[Oracle::Leak, Oracle::Footprint]),
+        _ => {}
+    }
+}
+
+fn replay(ctx: &Ctx, text: &str) -> Result<String, String> {
+    select_oracles(&ctx.prop);
     if field(text, "stream").is_some() {
         return longrun::replay(text);
     }
@@ -78,11 +92,13 @@ fn replay(_ctx: &Ctx, text: &str) -> Result<String, String> {
     let mut obs = codec::Obs::default();
     if side == "enc" {
         match tiny::enc_case(&data, &pieces, limits, prefill, &mut obs) {
+            Err(e) if !relevant(&e) => Err(format!("only a sibling property's oracle fails: {}", e)),
             Err(e) => Ok(e),
             Ok(()) => Err("encoder output is canonical, stuff-free, prefix-consistent and leak-free".into()),
         }
     } else {
         match tiny::dec_case(&data, &pieces, limits, prefill, &mut obs) {
+            Err(e) if !relevant(&e) => Err(format!("only a sibling property's oracle fails: {}", e)),
             Err(e) => Ok(e),
             Ok(acc) => Err(format!("decoder verdict ({}) and output equal the reference decoder", if acc { "accept" } else { "reject" })),
         }
